@@ -10,6 +10,7 @@ import time
 ID = 'C05'
 TECHNIQUE = 'runtime monitor: CPU-time bound per regex builtin call with a parent-side hard watchdog reading /proc CPU before killing'
 BOUND_CONST, BOUND_PER_PATTERN_CHAR, BOUND_PER_SUBJECT_CHAR = 0.6, 50e-6, 5e-6
+REPEAT_CONST = 0.3      # constant of the bound for an immediate repeat of a call (no compilation left): 6x the 50 ms timeout
 RULE = '(function, pattern, subject, flags[, extra arguments]) with function in {match, match_groups, match_all}; pattern families: nested and overlapping quantifiers, alternations, counted repeats, (a?){n}a{n}, back-references, lookaround with quantified bodies, atomic/possessive groups, recursion, fuzzy and reverse matching, POSIX and V1 set operations, group-less adjacent quantifiers, many moderately expensive matches / sub-timeout segments in one subject, long literals / alternations / classes (<= 20000 chars), random compositions; adversarial subjects of 10 .. 10^5 chars; flag strings: every single letter, pairs, i/m/s combinations, garbage, long strings of flag letters with an invalid tail, None; 4th/5th arguments; sequences of 2-5 regex calls in ONE evaluation (costly-to-compile harmless patterns first, a catastrophic one last). Bound: CPU <= 0.60 s + 50 us x len(pattern) + 5 us x len(subject) per call (sum for a sequence). Non-trivial = the call (sequence) was timed against the bound; distinct = distinct (function, pattern, subject length, flags).'
 RULE += ' Sequences also place a call that runs into the timeout (swallowed by the host callback) before - also directly before - the last call; a third of the single calls pass the subject or the pattern as a str subclass that reports a length of its own (10^10 or 0).'
 ASSUMPTIONS = ['CPU time of the calling thread (not wall time) is the measure; a case killed by the hard watchdog is a violation only if the worker had burnt more CPU than the bound',
@@ -243,10 +244,30 @@ def run_case(case, ctx):
         ctx.count('hostile_cases(cpu>=30ms)')
     ctx.counters['max_cpu_ms'] = max(ctx.counters['max_cpu_ms'], int(dt * 1000))
     ctx.counters['max_cpu_over_bound_permille'] = max(ctx.counters['max_cpu_over_bound_permille'], int(1000 * dt / b))
+    if classify(pattern, len(subject)) is None:
+        ctx.counters['max_cpu_ms(cases outside the known finding)'] = max(ctx.counters['max_cpu_ms(cases outside the known finding)'], int(dt * 1000))
+        ctx.counters['max_cpu_over_bound_permille(cases outside the known finding)'] = max(ctx.counters['max_cpu_over_bound_permille(cases outside the known finding)'], int(1000 * dt / b))
     if dt > b:
         ctx.violation('%s burnt %.2f s CPU (bound %.2f s)' % (fn, dt, b), case, finding=classify(pattern, len(subject)),
                       detail={'function': fn, 'family': family, 'pattern': pattern[:200], 'subject_len': len(subject), 'flags': flags,
                               'cpu_s': round(dt, 3), 'wall_s': round(time.time() - w0, 3), 'bound_s': round(b, 3), 'outcome': outcome})
+    if dt >= 0.03 and dt <= b:
+        # the same call again at once: the compiled pattern is cached by the engine now, what is left is matching under the timeout - held to a tighter constant
+        b2 = REPEAT_CONST + BOUND_PER_PATTERN_CHAR * len(pattern) + BOUND_PER_SUBJECT_CHAR * len(subject)
+        t1 = time.process_time()
+        try:
+            ctx.P.eval(src, names, None, 1000)
+        except Exception:
+            pass
+        dt2 = time.process_time() - t1
+        ctx.count('repeated_calls_timed')
+        ctx.counters['max_cpu_ms_of_a_repeated_call'] = max(ctx.counters['max_cpu_ms_of_a_repeated_call'], int(dt2 * 1000))
+        if classify(pattern, len(subject)) is None:
+            ctx.counters['max_cpu_over_bound_permille_of_a_repeated_call(outside the known finding)'] = max(
+                ctx.counters['max_cpu_over_bound_permille_of_a_repeated_call(outside the known finding)'], int(1000 * dt2 / b2))
+        if dt2 > b2:
+            ctx.violation('%s, called again with a pattern the engine has already compiled, burnt %.2f s CPU (bound %.2f s)' % (fn, dt2, b2), case, finding=classify(pattern, len(subject)),
+                          detail={'function': fn, 'family': family, 'pattern': pattern[:200], 'subject_len': len(subject), 'flags': flags, 'cpu_s': round(dt2, 3), 'bound_s': round(b2, 3)})
     if ctx.counters['calls_timed'] % 40 == 1:
         ctx.sample({'function': fn, 'family': family, 'pattern': pattern[:80], 'subject_len': len(subject), 'flags': flags, 'cpu_s': round(dt, 4), 'outcome': outcome})
 
